@@ -107,8 +107,14 @@ class ActorStep(Obligation):
 
     def model_info(self, p, m, res):
         if not res:
-            return {}
+            cur = getattr(self, '_cur', None)
+            if not cur:
+                return {}
+            st, mx = cur
+            res = {'st': st, 'args': {'max_count': mx}}
         info = state_info(m, res['st'])
+        if hasattr(res['st'], 'biglen'):
+            info['backlog_len64'] = model_value(m, res['st'].biglen)
         for k, v in res.get('args', {}).items():
             info[k] = [model_value(m, x) for x in v] if isinstance(v, list) else model_value(m, v)
         return info
@@ -658,3 +664,40 @@ class ReceiveDropped(ActorStep):
         if self.variant in ('GetInfo', 'GetStats', 'AcknowledgeMessages'):
             out.append(Claim('backlog unchanged', backlog_is(f['backlog'], st.btoks, st.blen)))
         return out
+
+
+# ---------------------------------------------------------------------- native replay requests
+
+def _actor_replay(kind, args_of):
+    def native_replay(self, v):
+        import sys, os
+        sys.path.insert(0, os.path.join(os.path.dirname(os.path.dirname(os.path.dirname(os.path.abspath(__file__))))))
+        import actor_replay
+        info = v.get('info') or {}
+        if 'outstanding' not in info and 'deliveries' not in info:
+            return None
+        if 'deliveries' in info:
+            info = dict(info)
+            info['outstanding'] = [{'ack': d['ack'], 'tok': d.get('tok'), 'deadline_ns': d.get('deadline_ns', d.get('deadline'))} for d in info['deliveries']
+                                   if d.get('used', True)]
+            info.setdefault('backlog', [])
+        if info.get('backlog_len64') is not None:
+            if info['backlog_len64'] > 300000:
+                return None
+            info = dict(info)
+            info['backlog'] = list(range(info['backlog_len64']))
+        try:
+            return actor_replay.build_script(self.id, info, (kind, args_of(info)))
+        except (KeyError, TypeError):
+            return None
+    return native_replay
+
+
+StepPull.native_replay = _actor_replay('pull', lambda i: {'max_count': i['max_count']})
+StepAck.native_replay = _actor_replay('ack', lambda i: {'ids': i['ack_ids'][:i['ack_ids_len']]})
+StepPost.native_replay = _actor_replay('post', lambda i: {'count': i['batch_len']})
+StepExpire.native_replay = _actor_replay('expire', lambda i: {'now_ns': i['now_ns']})
+StepModify.native_replay = _actor_replay('modify', lambda i: {'mods': [{'ack': i['mod_ids'][k], 'extend': i['mod_extend'][k], 'deadline_ns': i['mod_deadline_ns'][k]}
+                                                                         for k in range(i['mods_len'])]})
+TrackerRemove.native_replay = _actor_replay('ack', lambda i: {'ids': i['ids']})
+TrackerModify.native_replay = _actor_replay('modify', lambda i: {'mods': i['mods']})
